@@ -174,6 +174,12 @@ theorem inv_step {s : S} (h : Inv s) (e : Ev) : Inv (step Cfg.fixed s e) := by
     split
     · exact ⟨h1, h2, h3, h4, h5, h6, h7, h8, h9, h10, h11, h12⟩
     · split <;> exact ⟨h1, h2, h3, h4, h5, h6, h7, h8, h9, h10, h11, h12⟩
+  | tickFlaky =>
+    simp only [step, Cfg.fixed, Bool.true_and, doStart]
+    (repeat' split)
+    all_goals first
+      | exact ⟨h1, h2, h3, h4, h5, h6, h7, h8, h9, h10, h11, h12⟩
+      | (constructor <;> simp_all)
 
 theorem cfg_fixed : Generated.avahiCfg = Cfg.fixed := by decide
 
